@@ -56,6 +56,20 @@ def strip_comments(src: str) -> str:
     return "".join(out)
 
 
+# Redis-broker clauses of the broker properties live in one file (Props/Redis.lean), listed here per property
+REDIS_MODULE = "RepidProofs.Props.Redis"
+REDIS_THEOREMS = {
+    "C01": ["redis_ack_removes", "redis_nack_dead_letters", "redis_reject_origin", "redis_requeue_atomic", "take_marks_processing",
+            "unmark_lists"],
+    "C03": ["maintenance_single", "maintenance_not_before"],
+    "C05": ["ceilSecs_le_secs", "fetchDelayed_due", "redis_never_early", "enqueue_score", "delayed_only_visible_in_delayed",
+            "truncated_score_early_witness"],
+    "C12": ["redis_no_expired_delivery", "nack_dead_letters_own_priority", "dead_letters_retrievable"],
+    "C14": ["redis_take_race_witness", "redis_take_removes_partial", "take_marks_processing"],
+    "C15": ["fetchList_oldest", "redis_fifo", "enqueue_does_not_overtake", "returned_is_next"],
+}
+
+
 def theorem_names(pid: str) -> list[str]:
     f = LEAN / "RepidProofs" / "Props" / f"{pid}.lean"
     if not f.exists():
@@ -132,13 +146,20 @@ def _run(pid: str, thorough: bool) -> dict:
     module = f"RepidProofs.Props.{pid}"
     rc, out = _sh(["lake", "build", module])
     log += out
+    redis_names = [f"Repid.RedisProofs.{n}" for n in REDIS_THEOREMS.get(pid, [])]
+    redis_ok = True
+    if redis_names:
+        rcr, outr = _sh(["lake", "build", REDIS_MODULE])
+        log += outr
+        redis_ok = rcr == 0
     undischarged: dict[str, str] = {}
     axioms: dict[str, list[str]] = {}
     audit_dir = LEAN / ".lake" / "audit"
     audit_dir.mkdir(parents=True, exist_ok=True)
     audit = audit_dir / f"Audit_{pid}.lean"
     if rc == 0:
-        audit.write_text(f"import {module}\n" + "".join(f"#print axioms {n}\n" for n in names))
+        audit.write_text(f"import {module}\n" + (f"import {REDIS_MODULE}\n" if redis_names and redis_ok else "") +
+                         "".join(f"#print axioms {n}\n" for n in names + (redis_names if redis_ok else [])))
         rc2, out2 = _sh(["lake", "env", "lean", str(audit)])
         log += out2
         axioms = parse_axioms(out2)
@@ -154,6 +175,11 @@ def _run(pid: str, thorough: bool) -> dict:
         if not axioms:
             for n in names:
                 undischarged[n] = "module does not build: " + out[-800:]
+    if redis_names:
+        names = names + redis_names
+        if not redis_ok:
+            for n in redis_names:
+                undischarged[n] = "Props/Redis.lean does not build: " + outr[-600:]
     for n in names:
         if n in undischarged:
             continue
